@@ -24,7 +24,9 @@ RULE = ("strings over {a,b,c,' '} (length <= 7) plus Unicode samples (astral, co
         "lone surrogate); for substring/indexOf/lastIndexOf every start in [-len, len+2] and length in "
         "[-2, len+2] of each grid string; random cases for split/rightSplit/join/trim*/norm/isEmpty/replace/"
         "replace(dict)/startsWith/endsWith/toCharArray/len/in/*/characters; regex: generated patterns with "
-        "numbered, named, nested and optional groups x subject strings x selectors reading $0.., $name; "
+        "numbered, named, nested and optional groups x subject strings x selectors reading $0.., $name, eager "
+        "([..] lists) and LAZY (select/where over a constant list reading $k.value/start/end, k >= 2 or a name) x "
+        "consumers of the searchAll result (plain, toList, reverse, toList().take(1), toList().skip(1)); "
         "non-trivial = not the empty string and (for index functions) a negative or past-the-end argument or "
         "a hit, (for regex) at least one match with at least one group; distinct = distinct call")
 TRUSTED = ["Model/Strings.v transcribes CPython's str.find/rfind/slice/split/rsplit/strip/replace/join semantics and "
@@ -711,6 +713,23 @@ def key_text(k):
     return "$%d" % k if isinstance(k, int) else "$" + k
 
 
+CONSUMERS = {"plain": "", "toList": ".toList()", "reverse": ".reverse()", "take1": ".toList().take(1)",
+             "skip1": ".toList().skip(1)"}
+
+
+def lazy_sel_text(sel):
+    """A selector whose value is a LAZY sequence reading a match record ($k with k >= 2 or a name:
+    inside select/where `$`/`$1` is the element)."""
+    k = key_text(sel[1])
+    if sel[0] == "value":
+        return "[%s].select(%s?.value)" % (", ".join(str(i) for i in range(sel[2])), k)
+    if sel[0] == "span":
+        return "[0, 1].select(switch($ = 0 => %s.start, true => %s.end))" % (k, k)
+    if sel[0] == "where":
+        return "[x].where(%s.end > %d)" % (k, sel[2])
+    raise ValueError(sel)
+
+
 def regex_expr(rc):
     """rc = dict(fn, pat, flags(ic, ml, da), s, ...) -> (expression, data)"""
     ic, ml, da = rc["flags"]
@@ -733,9 +752,17 @@ def regex_expr(rc):
         if rc["keys"] is None:
             return "%s.%s($.s)" % (rx, fn), data
         return "%s.%s($.s, [%s])" % (rx, fn, ", ".join(key_text(k) for k in rc["keys"])), data
+    if fn in ("searchLazy", "searchAllLazy"):
+        sel = lazy_sel_text(rc["sel"])
+        if fn == "searchLazy":
+            return "%s.search($.s, %s)" % (rx, sel), data
+        return "%s.searchAll($.s, %s)%s" % (rx, sel, CONSUMERS[rc["cons"]]), data
     if fn == "replaceBy":
         parts = []
         for it in rc["items"]:
+            if it[0] == "join":
+                parts.append('[%s].select(str(%s?.value)).join("")' % (", ".join(str(i) for i in range(it[2])), key_text(it[1])))
+                continue
             parts.append('"%s"' % it[1] if it[0] == "lit" else "str(%s?.value)" % key_text(it[1]))
         sel = "concat(%s)" % ", ".join(parts)
         data["k"] = rc["count"]
@@ -785,6 +812,14 @@ def run_regex(rc):
             return ("recss", [[canon_rec(x) for x in row] for row in v])
         if fn in ("replaceBy", "replace"):
             return ("str", v) if isinstance(v, str) else ("foreign", repr(v))
+        if fn in ("searchLazy", "searchAllLazy"):
+            if fn == "searchLazy":
+                if v is None:
+                    return ("null",)
+                v = [v]
+            ok = isinstance(v, list) and all(isinstance(row, list) and all(
+                x is None or isinstance(x, str) or (isinstance(x, int) and not isinstance(x, bool)) for x in row) for row in v)
+            return ("vals", [list(row) for row in v]) if ok else ("foreign", repr(v))
         if fn == "split":
             return ("ostrs", list(v)) if all(x is None or isinstance(x, str) for x in v) else ("foreign", repr(v))
     except Exception as e:
@@ -795,7 +830,7 @@ def run_regex(rc):
 def matches_of(rc):
     """The oracle: what CPython's re finds (first match / all matches)."""
     rx = re.compile(rc["pat"], flags_of(*rc["flags"]))
-    if rc["fn"] in ("matches", "search"):
+    if rc["fn"] in ("matches", "search", "searchLazy"):
         m = rx.search(rc["s"])
         return [] if m is None else [mrec(m)]
     return [mrec(m) for m in rx.finditer(rc["s"])]
@@ -820,6 +855,22 @@ def ref_regex(rc, ms):
     def lim(c):
         return ms if c == 0 else ms[:max(0, c)]
 
+    def lazy(m):
+        sel = rc["sel"]
+        g = var(m, sel[1])
+        if sel[0] == "value":
+            return [None if g is None else g[0] for _ in range(sel[2])]
+        if sel[0] == "span":
+            return [g[1], g[2]]
+        return ["x"] if g[2] > sel[2] else []
+
+    if fn == "searchLazy":
+        return ("vals", [lazy(ms[0])]) if ms else ("null",)
+    if fn == "searchAllLazy":
+        rows = [lazy(m) for m in ms]
+        c = rc["cons"]
+        rows = rows[::-1] if c == "reverse" else rows[:1] if c == "take1" else rows[1:] if c == "skip1" else rows
+        return ("vals", rows)
     if fn == "matches":
         return ("bool", bool(ms))
     if fn == "search":
@@ -842,6 +893,9 @@ def ref_regex(rc, ms):
                 for it in rc["items"]:
                     if it[0] == "lit":
                         out.append(it[1])
+                    elif it[0] == "join":
+                        g = var(m, it[1])
+                        out += ["null" if g is None or g[0] is None else g[0] for _ in range(it[2])]
                     else:
                         g = var(m, it[1])
                         out.append("null" if g is None or g[0] is None else g[0])
@@ -884,8 +938,18 @@ def rcall_term(rc, ms):
         return "(RSearch %s %s)" % (mopt, gal.opt(keys))
     if fn == "searchAll":
         return "(RSearchAll %s %s)" % (mlist, gal.opt(keys))
+    if fn in ("searchLazy", "searchAllLazy"):
+        sel = rc["sel"]
+        st = ("(LValue %s %s)" % (key_term(sel[1]), gal.nat(sel[2])) if sel[0] == "value" else
+              "(LSpan %s)" % key_term(sel[1]) if sel[0] == "span" else "(LWhere %s %s)" % (key_term(sel[1]), gal.z(sel[2])))
+        if fn == "searchLazy":
+            return "(RSearchLazy %s %s)" % (mopt, st)
+        cons = {"plain": "CPlain", "toList": "CToList", "reverse": "CReverse", "take1": "CTake1", "skip1": "CSkip1"}[rc["cons"]]
+        return "(RSearchAllLazy %s %s %s)" % (mlist, st, cons)
     if fn == "replaceBy":
-        items = gal.lst("(ILit %s)" % gal.s(it[1]) if it[0] == "lit" else "(IVal %s)" % key_term(it[1]) for it in rc["items"])
+        items = gal.lst("(ILit %s)" % gal.s(it[1]) if it[0] == "lit" else
+                        "(IJoin %s %s)" % (key_term(it[1]), gal.nat(it[2])) if it[0] == "join" else
+                        "(IVal %s)" % key_term(it[1]) for it in rc["items"])
         return "(RReplaceBy %s %s %s %s)" % (gal.s(rc["s"]), mlist, items, gal.z(rc["count"]))
     if fn == "replace":
         return "(RReplaceLit %s %s %s %s)" % (gal.s(rc["s"]), mlist, gal.s(rc["repl"]), gal.z(rc["count"]))
@@ -909,7 +973,42 @@ def rres_term(r):
         return "(XRecs %s)" % gal.lst(orec(g) for g in r[1])
     if k == "recss":
         return "(XRecss %s)" % gal.lst(gal.lst(orec(g) for g in row) for row in r[1])
+    if k == "vals":
+        rv = lambda x: "(VInt %s)" % gal.z(x) if isinstance(x, int) else "(VStr %s)" % ostr(x)
+        return "(XVals %s)" % gal.lst(gal.lst(rv(x) for x in row) for row in r[1])
     return "(XRecs [Some (None, 424242%Z, 0%Z)])"      # foreign: never equal to a model result
+
+
+def published_keys(pat):
+    """Variables other than $1 that _publish_match assigns for this pattern ($1 is the element inside select/where)."""
+    rx = re.compile(pat)
+    return list(range(2, rx.groups + 2)) + sorted(rx.groupindex)
+
+
+def random_lazy_sel(rng, pat, n):
+    pub = published_keys(pat)
+    anykey = [k for k in list(range(0, re.compile(pat).groups + 4)) + NAMES + ["nosuch"] if k != 1]
+    r = rng.random()
+    if not pub or r < 0.4:
+        return ("value", rng.choice(pub) if pub and rng.random() < 0.7 else rng.choice(anykey), rng.randrange(1, 3))
+    if r < 0.7:
+        return ("span", rng.choice(pub))
+    return ("where", rng.choice(pub), rng.randrange(-1, n + 1))
+
+
+def lazy_family():
+    """Every lazy selector kind x every consumer on patterns with several matches per subject."""
+    out = []
+    for pat in ["a(.)", "(?P<x>[ab])(c*)", "(b)(?P<x>a|c)", "(a)(b)?", "(?P<x>a+)(?P<y>b*)", "(?P<x>(?P<y>a)|b)+"]:
+        pub = published_keys(pat)
+        for s in ["abac", "abcab", "aabbc", "bacbc"]:
+            for k in pub:
+                for sel in [("value", k, 1), ("value", k, 2), ("span", k), ("where", k, 2)]:
+                    for cons in CONSUMERS:
+                        out.append({"fn": "searchAllLazy", "pat": pat, "flags": (False, False, False), "s": s,
+                                    "sel": sel, "cons": cons})
+                    out.append({"fn": "searchLazy", "pat": pat, "flags": (False, False, False), "s": s, "sel": sel})
+    return out
 
 
 def random_regex_call(rng, pat=None, s=None):
@@ -923,8 +1022,14 @@ def random_regex_call(rng, pat=None, s=None):
                     for _ in range(rng.randrange(0, 8)))
     ngroups = re.compile(pat).groups
     allkeys = list(range(0, ngroups + 4)) + NAMES + ["nosuch"]
-    fn = rng.choice(["matches", "search", "search", "searchAll", "searchAll", "replaceBy", "replaceBy", "replace", "split"])
+    fn = rng.choice(["matches", "search", "search", "searchAll", "searchAll", "replaceBy", "replaceBy", "replace", "split",
+                     "searchAllLazy", "searchAllLazy", "searchLazy"])
     rc = {"fn": fn, "pat": pat, "flags": flags, "s": s}
+    if fn in ("searchLazy", "searchAllLazy"):
+        rc["sel"] = random_lazy_sel(rng, pat, len(s))
+        if fn == "searchAllLazy":
+            rc["cons"] = rng.choice(["plain", "toList", "toList", "reverse", "reverse", "take1", "skip1"])
+        return rc
     if fn == "matches":
         rc["form"] = rng.randrange(5)
         if rc["form"] >= 3:
@@ -935,7 +1040,9 @@ def random_regex_call(rng, pat=None, s=None):
     elif fn == "replaceBy":
         items = []
         for _ in range(rng.randrange(1, 4)):
-            items.append(("lit", rng.choice(["", "-", "x", "<>", "ab"])) if rng.random() < 0.35
+            r = rng.random()
+            items.append(("lit", rng.choice(["", "-", "x", "<>", "ab"])) if r < 0.35
+                         else ("join", rng.choice([k for k in allkeys if k != 1]), rng.randrange(1, 3)) if r < 0.5
                          else ("val", rng.choice(allkeys)))
         rc["items"] = items
         rc["count"] = rng.choice([0, 0, 1, 2, 3])
@@ -1035,6 +1142,8 @@ def fix_regex_call(rc):
     rc["flags"] = tuple(rc["flags"])
     if rc.get("items") is not None:
         rc["items"] = [tuple(i) for i in rc["items"]]
+    if rc.get("sel") is not None:
+        rc["sel"] = tuple(rc["sel"])
     return rc
 
 
@@ -1083,6 +1192,8 @@ def correspondence(run):
                     allkeys = list(range(0, re.compile(pat).groups + 3)) + NAMES
                     rcalls.append({"fn": "matches", "pat": pat, "flags": flags, "s": sj, "form": 0})
                     rcalls.append({"fn": "search", "pat": pat, "flags": flags, "s": sj, "keys": allkeys})
+    # selectors returning LAZY sequences x consumers that materialise the outer searchAll result first
+    rcalls += lazy_family()
     rcalls += [random_regex_call(rng) for _ in range(run.n(1500, 20000))]
     terms, meta = [], []
     for i, rc in enumerate(rcalls):
